@@ -11,8 +11,9 @@ from __future__ import annotations
 
 import ast
 
-from ..astutil import dotted, src, walk_local, local_assignments, calls, if_chain, op_test
-from ..report import AnalysisError
+from ..astutil import dotted, src, walk_local, local_assignments, calls, if_chain, op_test, enclosing_function
+from ..inline import bind_args, call_sites
+from ..report import AnalysisError, Frag
 
 DIFF_FUNCS = {"gradient", "compute_jacobian", "compute_hessian", "jacobian", "hessian"}
 REGULAR_NP = {"sin", "cos", "exp", "sinh", "cosh", "tanh", "sign", "arctan", "abs", "absolute", "negative", "zeros", "ones",
@@ -460,7 +461,7 @@ def check(prog, rep):
     rep.expect_min("R19.1", 44)
     rep.expect_min("R19.2", 14)
     rep.expect_min("R19.3", 2)
-    rep.expect_min("R19.4", 5)
+    rep.expect_min("R19.4", 3)  # minimize(jac=, hess=) + at least one constraint record (three inline records, or one record factory)
     rep.explanation = (
         "Must-pass-through over every closure handed to a solver: derivative factories are discovered by role (they "
         "return closures and call the symbolic differentiator, or their closure result is returned/wrapped by such a "
@@ -504,9 +505,11 @@ def _traces_to_factory(prog, fi, v, fact_names, depth=0):
     if isinstance(v, ast.Constant) and v.value is None:
         return True, "None (no derivative supplied)"
     assigns = local_assignments(fi.node)
-    nested = {f.name: f for f in prog.nested_functions(fi) if f.parent is fi}
-    if isinstance(v, ast.Name) and v.id in nested:
-        return _closure_wraps(prog, fi, nested[v.id].node, fact_names, assigns)
+    nested = [n for n in ast.walk(fi.node) if isinstance(n, ast.FunctionDef) and n is not fi.node and isinstance(v, ast.Name) and n.name == v.id and enclosing_function(n) is fi.node]
+    if nested:
+        res = [_closure_wraps(prog, fi, n, fact_names, assigns) for n in nested]
+        bad = [r for r in res if not r[0]]
+        return (not bad, bad[0][1] if bad else res[0][1])
     if isinstance(v, ast.Lambda):
         return _closure_wraps(prog, fi, v, fact_names, assigns)
     if isinstance(v, ast.Name) and v.id in assigns and depth < 3:
@@ -536,6 +539,21 @@ def _origin(prog, fi, node, fact_names, assigns, depth=0, seen=None):
     seen = seen if seen is not None else set()
     if isinstance(node, ast.Call) and dotted(node.func) in fact_names:
         return True, f"wraps the callable made by {dotted(node.func)}"
+    a_ = fi.node.args
+    params = [x.arg for x in a_.posonlyargs + a_.args + a_.kwonlyargs]
+    if isinstance(node, ast.Name) and node.id in params and node.id not in assigns and depth < 4:
+        # a record / wrapper factory: the callable is a parameter; every call site must pass a factory-made callable
+        sites = call_sites(prog, fi, "optyx.solvers")
+        if not sites:
+            return False, f"parameter {node.id} of {fi.name} has no call site to trace"
+        for caller, call in sites:
+            arg = bind_args(fi.node, call).get(node.id)
+            if arg is None:
+                return False, f"cannot bind parameter {node.id} at the call in {caller.name}"
+            ok, why = _origin(prog, caller, arg, fact_names, local_assignments(caller.node), depth + 1, seen)
+            if not ok:
+                return ok, why
+        return True, f"wraps parameter '{node.id}', bound at {len(sites)} call site(s) to a callable made by a derivative factory"
     if isinstance(node, ast.Name) and node.id in assigns and depth < 4:
         for v in assigns[node.id]:
             if isinstance(v, ast.AST):
